@@ -180,11 +180,25 @@ def d20():
         return f"anisotropic cells: sum of mean demag field components {tot:.6f} (expected -1)"
 
 
+def d21():
+    out = []
+    for name, f in (("translate", lambda r: r.translate((1e17, 0), inplace=True)),
+                    ("rotate90", lambda r: r.rotate90("x", "y", reference_point=(1e17, 0), inplace=True))):
+        r = df.Region(p1=(0, 0), p2=(1, 1))
+        try:
+            f(r)
+        except Exception:
+            pass
+        if not np.all(r.pmin < r.pmax):
+            out.append(f"{name}: pmin={r.pmin.tolist()} pmax={r.pmax.tolist()}")
+    return ("in-place step left a degenerate region: " + "; ".join(out)) if out else None
+
+
 ALL = {
     "D1": ("C13", d1), "D2": ("C13", d2), "D3": ("C12", d3), "D4": ("C12", d4),
     "D5": ("C08", d5), "D6": ("C08", d6), "D7": ("C08", d7), "D8": ("C03", d8),
     "D9": ("C03", d9), "D11": ("C02", d11), "D12": ("C10", d12), "D13": ("C10", d13),
-    "D14": ("C09", d14), "D15": ("C09", d15), "D16": ("C11", d16), "D20": ("C19", d20),
+    "D14": ("C09", d14), "D15": ("C09", d15), "D16": ("C11", d16), "D20": ("C19", d20), "D21": ("C13", d21),
 }
 
 
